@@ -215,14 +215,14 @@ func c06(c *core.Ctx, r *core.Report) {
 	})
 
 	rule(r, "C06.R4", "cleanups run in reverse registration order (the loop in T.teardown visits indices len-1 … 0) and each cleanup call has its own recovered frame", func() {
-		reverseLoopShape(c, r)
+		cleanupOrderRule(c, r)
 		containmentRule(c, r, true)
 	})
 
 	rule(r, "C06.R5", "the cleanup stack is written only by Cleanup (append), Reset and the constructor; tearingDown is set only by teardown and cleared only by Reset; Reset clears both on every path", func() {
 		tpkg := "pkg/f1/testing"
-		stack := c.Field(tpkg, "T", "teardownStack")
-		tearing := c.Field(tpkg, "T", "tearingDown")
+		stack := handleFields(c).stack
+		tearing := handleFields(c).tearing
 		n := 0
 		for _, fn := range c.AllFuncs {
 			an.Instrs(fn, func(in ssa.Instruction) {
@@ -239,7 +239,16 @@ func c06(c *core.Ctx, r *core.Report) {
 					okk := false
 					switch name {
 					case "Cleanup":
-						okk = strings.HasPrefix(d, "append($t.teardownStack")
+						// append(<the same field of the receiver>, <the function given>)
+						if ap, isCall := an.Strip(st.Val).(*ssa.Call); isCall && an.IsBuiltinCall(ap, "append") {
+							if fa, isFA := an.Strip(ap.Call.Args[0]).(*ssa.FieldAddr); isFA && an.SameField(an.FieldOfAddr(fa), stack) && len(fn.Params) > 0 && an.Strip(fa.X) == ssa.Value(fn.Params[0]) {
+								for _, el := range varargElems(ap.Call.Args[1]) {
+									if _, isParam := an.Strip(el).(*ssa.Parameter); isParam {
+										okk = true
+									}
+								}
+							}
+						}
 					case "Reset", "NewTWithOptions":
 						okk = strings.HasPrefix(d, "local:") || strings.HasPrefix(d, "make(")
 					}
@@ -398,7 +407,7 @@ func reverseLoopShape(c *core.Ctx, r *core.Report) {
 	if p == nil {
 		panic(core.AnchorError{What: "pkg/f1/testing"})
 	}
-	stack := c.Field("pkg/f1/testing", "T", "teardownStack")
+	stack := handleFields(c).stack
 	isStack := func(e ast.Expr) bool {
 		sel, ok := ast.Unparen(e).(*ast.SelectorExpr)
 		if !ok {
